@@ -92,6 +92,9 @@ pub mod v3 {
         /// The user has been invited.
         Invite,
 
+        /// The user has knocked.
+        Knock,
+
         /// The user has left.
         Leave,
 
